@@ -403,6 +403,18 @@ def register_extra(M, it_of, to_iter, drain):
         return UNIT
     M.add(r"(?:BTreeMap|HashMap)::<.*>::retain::<.*>", map_retain)
 
+    def vec_dedup_by(c, m, a):
+        # removes every element for which same_bucket(&mut it, &mut last kept) holds
+        v = deref(a[0])
+        kept = []
+        for x in v.items:
+            if kept and dec(c, c.call_callable(a[1], [new_ref(x, True), new_ref(kept[-1], True)])):
+                continue
+            kept.append(x)
+        v.items[:] = kept
+        return UNIT
+    M.add(V + r"dedup_by::<.*>", vec_dedup_by)
+
     def vec_truncate(c, m, a):
         v = deref(a[0])
         del v.items[conc(a[1], "truncate length"):]
